@@ -104,6 +104,11 @@ function jobs (spec, ctx) {
       prog.meta.stream = spec.stream
       prog.meta.index = i
       out.push({ code: prog.code, file: FILES[(i + spec.stream) % FILES.length], meta: prog.meta, config: SETS[cfgName], cfgKey: cfgName, cfgName })
+      // every fifth synchronous program also runs with further operations spliced onto random sub-expressions
+      if (i % 5 === 0 && variant !== 'async' && !/\basync\b|\bawait\b|\bPromise\b|w\.X\d+\??\.prototype/.test(prog.code)) {
+        const sp = require('./gen_splice').spliceRunnable(r.fork('splice'), prog.code, !!prog.meta.module, 3)
+        if (sp) out.push({ code: sp.code, file: FILES[(i + spec.stream) % FILES.length], meta: Object.assign({}, prog.meta, { sigBase: 'random', splices: sp.splices, spliced: true }), config: SETS[cfgName], cfgKey: cfgName, cfgName })
+      }
     }
   }
   return out
